@@ -166,3 +166,55 @@ pub fn classify_search(rng: &mut crate::Rng) -> Result<u64, (Vec<u8>, String)> {
     }
     Ok(n)
 }
+
+/// C10: MSM encoding must not depend on the order in which satellites and cells are listed.
+macro_rules! msm_perm {
+    ($m:expr, $rng:expr, $($v:ident),*) => {
+        match $m {
+            $( Message::$v(ref mut t) => {
+                let ds = &mut t.data_segment;
+                let k = $rng.below(4);
+                { let s = ds.satellite_data.as_mut_slice(); if s.len() > 1 { match k { 0 => s.reverse(), 1 => s.rotate_left(1), _ => { let a = $rng.below(s.len()); let b = $rng.below(s.len()); s.swap(a, b); } } } }
+                { let s = ds.signal_data.as_mut_slice(); if s.len() > 1 { match k { 0 => s.reverse(), 1 => { let n = s.len(); s.rotate_left(n / 2) }, 2 => { s.rotate_left(1); s.reverse() }, _ => { for _ in 0..s.len() { let a = $rng.below(s.len()); let b = $rng.below(s.len()); s.swap(a, b); } } } } }
+                true
+            } )*
+            _ => false,
+        }
+    };
+}
+
+pub fn msm_perm_search(rng: &mut crate::Rng, budget: u64) -> Result<u64, (Vec<u8>, String)> {
+    let nums: Vec<u16> = supported_numbers().into_iter().filter(|n| (1071..=1137).contains(n)).collect();
+    let mut n = 0u64;
+    let mut round = 0u64;
+    while n < budget && !nums.is_empty() {
+        round += 1;
+        for num in &nums {
+            // sparse payloads so that few satellites/signals are set and the cell count stays <= 64
+            let mut p = payload_for(*num, rng, 700, 0);
+            // set a few mask bits: satellites in bytes 9..17, signals in 17..21 (bit offsets 73 / 137), cells after
+            for _ in 0..(2 + rng.below(5)) { let b = 73 + rng.below(64); p[b / 8] |= 0x80 >> (b % 8); }
+            for _ in 0..(1 + rng.below(4)) { let b = 137 + rng.below(32); p[b / 8] |= 0x80 >> (b % 8); }
+            for k in 21..60 { p[k] = rng.next() as u8; }
+            for k in 60..p.len() { if rng.below(3) == 0 { p[k] = rng.next() as u8; } }
+            let m = match decode_payload(&p) { Some(m) => m, None => continue };
+            let mc = m.clone();
+            let f1 = match std::panic::catch_unwind(move || { let mut b = MessageBuilder::new(); b.build_message(&mc).map(|x| x.to_vec()).ok() }) { Ok(Some(f)) => f, _ => continue };
+            let mut m2 = m.clone();
+            let is_msm = msm_perm!(m2, rng, Msg1071, Msg1072, Msg1073, Msg1074, Msg1075, Msg1076, Msg1077, Msg1081, Msg1082, Msg1083, Msg1084, Msg1085, Msg1086, Msg1087,
+                Msg1091, Msg1092, Msg1093, Msg1094, Msg1095, Msg1096, Msg1097, Msg1101, Msg1102, Msg1103, Msg1104, Msg1105, Msg1106, Msg1107,
+                Msg1111, Msg1112, Msg1113, Msg1114, Msg1115, Msg1116, Msg1117, Msg1121, Msg1122, Msg1123, Msg1124, Msg1125, Msg1126, Msg1127,
+                Msg1131, Msg1132, Msg1133, Msg1134, Msg1135, Msg1136, Msg1137);
+            if !is_msm { continue; }
+            n += 1;
+            let f2 = std::panic::catch_unwind(move || { let mut b = MessageBuilder::new(); b.build_message(&m2).map(|x| x.to_vec()).map_err(|e| format!("{:?}", e)) });
+            match f2 {
+                Ok(Ok(f2)) => if f2 != f1 { return Err((p, format!("message {}: encoding a permutation of the satellite/cell lists gives a different frame (C10)", num))); },
+                Ok(Err(e)) => return Err((p, format!("message {}: a permutation of a valid MSM message is rejected: {}", num, e))),
+                Err(_) => return Err((p, format!("message {}: encoder panicked on a permuted MSM message", num))),
+            }
+        }
+        if round > budget { break; }
+    }
+    Ok(n)
+}
